@@ -1434,6 +1434,13 @@ pub fn codegen(
                 } else {
                     // If the same symbols are undefined that were undefined in the previous pass, they are truly undefined.
                     if !ctx.undefined.is_empty() && ctx.undefined == prev_undefined {
+                        #[cfg(mos_verif)]
+                        {
+                            ctx.undefined = crate::verif_hashperm::reseat_set(
+                                "undefined",
+                                std::mem::take(&mut ctx.undefined),
+                            );
+                        }
                         let errors = ctx
                             .undefined
                             .iter()
